@@ -1,3 +1,4 @@
+import DSV.FactsOK.SrcC04
 import DSV.Generated.Facts
 /-! C04 — stage tests of `outcome()` / `reports()` and the reportability test, as extracted. -/
 namespace DSV.Props.C04.Facts
